@@ -44,6 +44,22 @@ CLAIMS = {
         note="Partial: slot uniqueness, concurrency bound, reserved slots, observer pairing, global_control worker bound and isolation are checked by real-thread oracle runs, not proved "
              "(no Coq model of try_occupy / observers yet); the write-back glue of reallot (which client receives which result) is tied only by the differential check.",
         ref="4/C16"),
+    "C17": dict(
+        technique="Coq proofs: exhaustive vm_compute sweeps lifted by lemma for the finite size-class domain, induction/arithmetic for slab geometry, bin invariant and large-object placement (all alignments up to 2^63); differential correspondence with the real front end in a fresh pool",
+        text="Proved: size classes (every request 1..8127: big enough, idempotent, monotone, 16/8-byte aligned, index in range), slab objects never overlap header or each other for every k, "
+             "a bin never hands out a live object (free-list/bump-pointer invariant for any legal alloc/free order), aligned small requests are that aligned, free() recovers the real object of an "
+             "aligned fitting-size pointer, large-object user area lies inside its raw block for every size/alignment/shuffle index incl. the 32-bit ptrDelta. "
+             "Tie: exact (objectSize, slab offset, msize) of every small object and exact placement of every large object in random alloc/free/aligned/realloc sequences, plus a shadow-map/pattern oracle.",
+        note="Not modelled: backend, back-references, large-object cache, block switching after a slab fills (model marks the bin untracked), public free list / orphaned slabs "
+             "(covered only by the shadow-map oracle and the cross-thread run in C18's check).",
+        ref="4/C17"),
+    "C18": dict(
+        technique="Coq proofs of the overflow/argument guards in mod-2^64 arithmetic (calloc product test exact; large-object wrap test complete for every size and alignment); fault enumeration over the raw-allocation trace of memory pools with a raw-memory ledger",
+        text="Proved: scalable_calloc refuses exactly the overflowing products; a large request that passes getFromLLOCache's test was computed with no wrap in size+headers+alignment nor in alignToBin. "
+             "The guard model is compared with malloc/calloc/posix_memalign/aligned_malloc near SIZE_MAX. Pools: every index k of the raw-allocation trace is refused once; live blocks stay intact, "
+             "blocks stay inside own raw memory, pool_identify is right, every raw region is returned exactly once, fixed pools call the raw allocator once, allocation recovers afterwards.",
+        note="The pool part is fault enumeration with an oracle, not a theorem (the backend is not modelled). OS-level refusal (mmap failure) is injected only through pool raw callbacks, not for the default pool.",
+        ref="4/C18"),
 }
 
 REASONS_TODO = "check not built yet in this round; the design (DESIGN.md section 4) applies and it is planned — listed here only because no check is registered"
